@@ -240,7 +240,7 @@ def projP (h : Nat) (id : Nat) (p0? : Option Prop') (tx : Tx) (p? : Option Prop'
   match tx with
   | .propose id' bs =>
     if id' = id then (match p? with | some p => some p | none => some (newProp h bs)) else p?
-  | .review id' _ _ | .rejvotes id' _ | .withdraw id' _ | .track id' _ _ =>
+  | .review id' _ _ | .rejvotes id' _ | .withdraw id' _ | .withdraw0 id' _ _ _ | .track id' _ _ =>
     if id' = id then (match p0? with | none => p? | some p0 => p?.map (propStep h p0 tx)) else p?
 
 /-- change of the committee's used amount caused by one transaction (decided on the pre-block state) -/
@@ -285,6 +285,13 @@ theorem get_applyTx_props (h : Nat) (s0 s : State) (tx : Tx) (id : Nat) :
     | some a0 => by_cases ho : id' = id
                  · subst ho; simp [get_upd, h0]
                  · simp [get_upd, ho]
+  | withdraw0 id' i o0 o1 =>
+    simp only [applyTx, projP]
+    cases h0 : get id' s0.props with
+    | none => by_cases ho : id' = id <;> simp [ho]; subst ho; simp [h0]
+    | some a0 => by_cases ho : id' = id
+                 · subst ho; simp [get_upd, h0]
+                 · simp [get_upd, ho]
   | track id' k st =>
     simp only [applyTx, projP]
     cases h0 : get id' s0.props with
@@ -300,6 +307,7 @@ theorem used_applyTx (h : Nat) (s0 s : State) (tx : Tx) :
   | review id' m a => simp only [applyTx, dUsed]; cases get id' s0.props <;> simp
   | rejvotes id' a => simp only [applyTx, dUsed]; cases get id' s0.props <;> simp
   | withdraw id' a => simp only [applyTx, dUsed]; cases get id' s0.props <;> simp
+  | withdraw0 id' i o0 o1 => simp only [applyTx, dUsed]; cases get id' s0.props <;> simp
   | track id' k st => simp only [applyTx, dUsed]; cases get id' s0.props <;> simp <;> omega
 
 theorem get_foldl_props (h : Nat) (s0 : State) (id : Nat) (txs : List Tx) (s : State) :
@@ -327,6 +335,7 @@ theorem used_foldl (h : Nat) (s0 : State) (txs : List Tx) (s : State) :
 
 def isWithdraw (id : Nat) : Tx → Bool
   | .withdraw id' _ => id' == id
+  | .withdraw0 id' _ _ _ => id' == id
   | _ => false
 
 def isTrack (id : Nat) : Tx → Bool
@@ -342,6 +351,7 @@ def wfTx : Tx → Prop
 def chkP (id : Nat) (p0? : Option Prop') : Tx → Prop
   | .propose _ bs => (bs.map (·.stage)).Nodup ∧ ∀ b ∈ bs, 0 ≤ b.amount
   | .withdraw id' amount => id' = id → ∃ p0, p0? = some p0 ∧ amount = avail p0.budgets
+  | .withdraw0 id' inp _ out1 => id' = id → ∃ p0, p0? = some p0 ∧ inp - out1Back out1 = avail p0.budgets
   | _ => True
 
 def OKp : Option Prop' → Prop
@@ -404,6 +414,21 @@ theorem fold_prop_ok (h id : Nat) (p0? : Option Prop') (hp0 : OKp p0?) :
           · simp only; rw [markWn_stages]; exact n1
           · exact markWn_amounts _ _ a1
           · simp only; rw [hm.1, hamt, paid1]
+        | withdraw0 id' inp out0 out1 =>
+          have hid : id' = id := by simpa [isWithdraw] using hd
+          subst hid
+          obtain ⟨p0, hp0e, hamt⟩ := hc rfl
+          obtain ⟨p, hpe, hgrow⟩ := htrack hnow p0 hp0e
+          subst hpe; subst hp0e
+          obtain ⟨n0, a0, s0', _⟩ := hp0
+          obtain ⟨n1, a1, s1, paid1⟩ := hok
+          have hm := mark_after_grow (withdrawing p0.budgets) hgrow
+            (fun b hb => mem_withdrawing p0.budgets n0 b hb) s1
+          simp only [projP, if_true, Option.map, OKp, propStep]
+          refine ⟨?_, ?_, hm.2, ?_⟩
+          · simp only; rw [markWn_stages]; exact n1
+          · exact markWn_amounts _ _ a1
+          · simp only; rw [hm.1, hamt, paid1]
         | _ => simp [isWithdraw] at hd
       · intro hone; omega
     · have hd' : isWithdraw id tx = false := by simpa using hd
@@ -427,6 +452,10 @@ theorem fold_prop_ok (h id : Nat) (p0? : Option Prop') (hp0 : OKp p0?) :
               · exact (withdrawnSum_zero bs (fun b hb => (hw b hb).2)).symm
           · exact ⟨hok, fun q hq => ⟨q, hq, Grow.refl _⟩⟩
         | withdraw id' a =>
+          have hid : ¬ id' = id := by simpa [isWithdraw] using hd'
+          simp only [projP, hid, if_false]
+          exact ⟨hok, fun q hq => ⟨q, hq, Grow.refl _⟩⟩
+        | withdraw0 id' i o0 o1 =>
           have hid : ¬ id' = id := by simpa [isWithdraw] using hd'
           simp only [projP, hid, if_false]
           exact ⟨hok, fun q hq => ⟨q, hq, Grow.refl _⟩⟩
@@ -574,6 +603,7 @@ theorem keys_applyTx (h : Nat) (s0 s : State) (tx : Tx) (hnd : (keys s.props).No
   | review id m a => simp only [applyTx]; cases get id s0.props <;> simp [keys_upd, hnd]
   | rejvotes id a => simp only [applyTx]; cases get id s0.props <;> simp [keys_upd, hnd]
   | withdraw id a => simp only [applyTx]; cases get id s0.props <;> simp [keys_upd, hnd]
+  | withdraw0 id i o0 o1 => simp only [applyTx]; cases get id s0.props <;> simp [keys_upd, hnd]
   | track id k st => simp only [applyTx]; cases get id s0.props <;> simp [keys_upd, hnd]
 
 theorem keys_foldl (h : Nat) (s0 : State) (txs : List Tx) (s : State) (hnd : (keys s.props).Nodup) :
@@ -614,6 +644,7 @@ theorem sumD_le (s0 : State) (hok : ∀ id p0, get id s0.props = some p0 → Pro
     | review id m a => simp only [sumD, dUsed, proposedSum]; omega
     | rejvotes id a => simp only [sumD, dUsed, proposedSum]; omega
     | withdraw id a => simp only [sumD, dUsed, proposedSum]; omega
+    | withdraw0 id i o0 o1 => simp only [sumD, dUsed, proposedSum]; omega
     | track id k st =>
       simp only [sumD, dUsed, proposedSum]
       cases hg : get id s0.props with
